@@ -131,7 +131,7 @@ def _build_race(root, env, wdir, tier):
 AREAS["C20"] = {
     "area": "c20", "id": 20, "bin": "harness-race", "prepare": _build_race,
     "coq": ["Base", "Store", "Properties/C20.v"],
-    "rule": "stress rounds against one instance from a -race build (GOMAXPROCS varied per round): 8 writer connections x 40 requests "
+    "rule": "one round in three also starts a whole server.Server (bus, store, clients, HTTP; plain build), lets four clients write until 40 writes are acknowledged, calls Stop while they write and requires Run to return within 25 s and the store file to open again; " "stress rounds against one instance from a -race build (GOMAXPROCS varied per round): 8 writer connections x 40 requests "
             "(thorough 16 x 80, 9 rounds): node point batches to the root and a fixed diamond of 4 nodes, edge points and delete/undelete on its edges, "
             "creation of new nodes, admin.storeVerify, read-after-ack of a written node; 3 reader connections re-reading nodes; globally "
             "distinct timestamps; then ordered shutdown (15 s limit) and reopen of the same file; a round is non-trivial when it has acknowledged "
